@@ -16,6 +16,7 @@ import (
 
 func init() {
 	verifRegister("verifC12Sequence", verifC12Sequence)
+	verifRegister("verifC12DualStack", verifC12DualStack)
 	verifRegister("verifC13Refcount", verifC13Refcount)
 	verifRegister("verifC13AbortProtocol", verifC13AbortProtocol)
 }
@@ -398,6 +399,91 @@ func verifC12Sequence() {
 			}
 			verifAssert(has, "map-entry-listed-by-its-connection")
 		}
+	}
+	verifReach("done")
+}
+
+// A mux on the unspecified address serves one ufrag on both IP families (the
+// agent asks once per local address). Removing the ufrag — or closing the mux —
+// must retire BOTH connections: nothing is delivered to either afterwards,
+// neither from an address they had written to nor by ufrag, and the tables hold
+// no reference to them.
+func verifC12DualStack() {
+	sock := &verifMuxSocket{in: make(chan verifInDatagram, 8), local: &net.UDPAddr{IP: net.IPv6unspecified, Port: 5000}}
+	m := NewUDPMuxDefault(UDPMuxParams{Logger: verifNopLogger{}, UDPConn: sock, Net: &verifNet{}})
+	verifRunGoroutines()
+	local4 := &net.UDPAddr{IP: net.IPv4(10, 0, 0, 1).To4(), Port: 5000}
+	local6 := &net.UDPAddr{IP: net.ParseIP("fd00::1"), Port: 5000}
+	peer4 := verifMuxAddrs[0]
+	peer6 := verifMuxAddrs[3]
+	h4, err4 := m.GetConn("u0", local4)
+	h6, err6 := m.GetConn("u0", local6)
+	verifAssert(err4 == nil && err6 == nil, "GetConn-ok(both-families)")
+	c4, c6 := verifUnderlying(h4), verifUnderlying(h6)
+	verifAssert(c4 != nil && c6 != nil && c4 != c6, "one-connection-per-family")
+	hAgain, _ := m.GetConn("u0", local6)
+	verifAssert(verifUnderlying(hAgain) == c6, "same-ufrag-and-family=>same-connection")
+	_ = hAgain.Close()
+	wrote := verifChoice(2) == 1
+	if wrote { // bind a peer address to each connection
+		_, e1 := h4.WriteTo([]byte{1, 2}, peer4)
+		_, e2 := h6.WriteTo([]byte{3, 4}, peer6)
+		verifAssert(e1 == nil && e2 == nil, "writes-ok")
+	}
+	// before the removal each family's traffic reaches its own connection
+	deliver := func(from *net.UDPAddr, stunFor string) {
+		var data []byte
+		if stunFor == "" {
+			data = verifBytes(3)
+		} else {
+			msg, err := stun.Build(stun.BindingRequest, stun.NewTransactionIDSetter(verifTxID()), stun.NewUsername(stunFor+":rr"))
+			verifAssert(err == nil, "build")
+			data = msg.Raw
+		}
+		sock.in <- verifInDatagram{data: data, from: from}
+		verifRunGoroutines()
+	}
+	n4, n6 := len(verifQueueOf(c4)), len(verifQueueOf(c6))
+	deliver(&net.UDPAddr{IP: net.IPv4(20, 0, 0, 9).To4(), Port: 2009}, "u0")
+	deliver(&net.UDPAddr{IP: net.ParseIP("2001:db8::9"), Port: 2009}, "u0")
+	verifAssert(len(verifQueueOf(c4)) == n4+1 && len(verifQueueOf(c6)) == n6+1, "each-family's-request-reaches-its-own-connection")
+	how := verifChoice(3)
+	switch how {
+	case 0:
+		m.RemoveConnByUfrag("u0")
+		verifReach("removed")
+	case 1:
+		verifAssert(m.Close() == nil, "mux-close-ok")
+		verifRunGoroutines()
+		verifReach("mux-closed")
+	default: // the agent closes its handles (last handle closes the connection, whose watcher removes the ufrag)
+		verifAssert(h4.Close() == nil && h6.Close() == nil, "close-ok")
+		verifRunGoroutines()
+		verifReach("handles-closed")
+	}
+	_, in4 := m.connsIPv4["u0"]
+	_, in6 := m.connsIPv6["u0"]
+	verifAssert(!in4 && !in6, "ufrag-gone-from-both-family-tables")
+	if how != 1 { // a closed mux dispatches nothing; its leftover table has no effect
+		for _, v := range m.addressMap {
+			verifAssert(v != c4 && v != c6, "no-address-binding-points-at-a-removed-connection")
+		}
+	}
+	n4, n6 = len(verifQueueOf(c4)), len(verifQueueOf(c6))
+	if how != 1 {
+		switch verifChoice(4) {
+		case 0:
+			deliver(peer4, "")
+		case 1:
+			deliver(peer6, "")
+		case 2:
+			deliver(&net.UDPAddr{IP: net.IPv4(20, 0, 0, 8).To4(), Port: 2008}, "u0")
+		default:
+			deliver(&net.UDPAddr{IP: net.ParseIP("2001:db8::8"), Port: 2008}, "u0")
+		}
+		verifAssert(len(verifQueueOf(c4)) == n4 && len(verifQueueOf(c6)) == n6, "removed-connections-receive-nothing(either-family)")
+		hNew, err := m.GetConn("u0", local6)
+		verifAssert(err == nil && verifUnderlying(hNew) != c6 && verifUnderlying(hNew) != c4, "GetConn-after-removal-returns-a-fresh-connection")
 	}
 	verifReach("done")
 }
